@@ -1314,6 +1314,15 @@ func rulePoppedBatchHandedOut(c *Check, p *Prog, rule string) {
 	c.Decide(rule, "Next ⟂ popped-batch-is-handed-out", fnName(next), p.InstrPos(pops[0].In), "after the head was removed from the in-memory queue every return hands the batch out",
 		"after the head was removed from the in-memory queue Next can return no batch (an error path): the batch is neither delivered nor kept, so its transactions are lost while the node runs and re-appear out of order after a restart", g,
 		g.PathAvoiding(pops, nodeSet(nilExits), nil))
+	// … and the same for the durable side: once the batch's record was deleted from the datastore,
+	// the batch exists in memory only. A return without it (an error, a cancellation noticed after
+	// the delete) leaves it "for the next call", which a restart in between never sees.
+	dels := g.Select(func(n *Node) bool { return dsCall(n, "Delete") })
+	if len(dels) > 0 {
+		c.Decide(rule, "Next ⟂ durably-deleted-batch-is-handed-out", fnName(next), p.InstrPos(dels[0].In), "after the batch's durable record was deleted every return hands the batch out",
+			"after the durable record of the head batch was deleted Next can return without handing the batch out: it is kept in memory only, and a restart before the next call loses an accepted batch that was never delivered", g,
+			g.PathAvoiding(dels, nodeSet(nilExits), nil))
+	}
 }
 
 // alignedResults: results si and hi of fn are lists built index-aligned — every append to the one
